@@ -7,7 +7,7 @@ from ..core import Disc, Subcheck, exc_detail, exc_key
 
 PROPERTY_ID = 'C10'
 LEVEL = 'exploration'
-RULE = ('generated object classes (type()/exec): 1-3 interfaces declared on a base class and/or a subclass, 1-4 methods each '
+RULE = ('Before the calls every proper string prefix of the exported path that is itself a path is exported as a bare object and withdrawn again (parents and look-alike siblings such as /a/b1 next to /a/b10). generated object classes (type()/exec): 1-3 interfaces declared on a base class and/or a subclass, 1-4 methods each '
         'with argument and return signatures from the type grammar, the same member on several interfaces, bound by '
         'dbus_<name> or by @dbusMethod, with or without a trailing dbusCaller parameter, implemented on base or subclass; '
         '1-6 calls per case, reference-encoded then parsed by parseMessage (flags included) and handed to '
@@ -170,6 +170,15 @@ def _build(case):
         h.exportObject(_plain_for(O, obj))
     else:
         h.exportObject(obj)
+    # neighbours that came and went: every proper string prefix of the path that is itself a path (the parent, but also
+    # siblings like /a/b1 next to /a/b10) was exported for a while and is withdrawn again; the object itself stays
+    P = case['path']
+    for n in range(2, len(P)):
+        if P[n - 1] != '/':
+            h.exportObject(O.DBusObject(P[:n]))
+    for n in range(2, len(P)):
+        if P[n - 1] != '/':
+            h.unexportObject(P[:n])
     conn.sent[:] = []
     state['binding'] = binding
     return h, conn, obj, state
@@ -581,7 +590,7 @@ def gen_case(draw, tier):
             m['impl_level'] = lvl
             if len(R.split_inner(m['in'])) != n0:
                 m['in'] = specs[0]['in']
-    path = draw(st.sampled_from(['/obj', '/a/b', '/']))
+    path = draw(st.sampled_from(['/obj', '/a/b', '/', '/a/b10']))
     calls = []
     for _ in range(draw(st.integers(1, 6))):
         i = draw(st.sampled_from(ifaces))
